@@ -201,6 +201,49 @@ def fsm_oracle(c, rep):
     return fails, tr
 
 
+def cblog_fails(flat_lines):
+    """`X cblog ...` lines of the harness: replaying the update callbacks does not give the table contents (C09 prefixes, C10 router keys)"""
+    out = []
+    for l in flat_lines:
+        if l.startswith("X cblog "):
+            out.append(("C10" if ("router key" in l or "router-key" in l) else "C09",
+                        "the update callbacks are not an exact change log of the table during synchronisation: " + l[8:200]))
+    return out
+
+
+def cblog_scan(rep, pid, tier):
+    """used by the C09 / C10 checks: synchronisations and state-machine conversations against tables whose update callbacks feed a
+    shadow set inside the harness; returns [(case, message)] for this property"""
+    ok, log = vlib.lake_build(["rtrdriver"])
+    drv = vlib.driver_path("rtrdriver")
+    exe, blog = vlib.build_harness("rtr", ["rtr_harness.c"], exclude=EXCLUDE, flags=vlib.SAN_FLAGS_NOALIGN)
+    if exe is None or not os.path.exists(drv):
+        return None
+    r = vlib.rng(pid + "/cblog")
+    cases = [rtrgen.gen_sync_case(r) for _ in range({"quick": 2500, "thorough": 40000}[tier])]
+
+    def run_model(ops):
+        o, rc_, err_ = vlib.run_lines(drv, ops)
+        return o
+    from concurrent.futures import ThreadPoolExecutor
+    nf = {"quick": 120, "thorough": 3000}[tier]
+    with ThreadPoolExecutor(max_workers=vlib.jobs()) as ex:
+        cases += list(ex.map(lambda i: rtrgen.gen_fsm_case(vlib.rng("%s/cblog/fsm/%d" % (pid, i)), run_model), range(nf)))
+    found = []
+    n_dump = 0
+    for c, irep, mrep, crash in run_cases(exe, drv, cases):
+        if crash:
+            continue
+        flat = [l for x in irep for l in x]
+        n_dump += sum(1 for l in flat if l.startswith("D pfx") or l.startswith("T pfx"))
+        for p, msg in cblog_fails(flat):
+            if p == pid:
+                found.append((c, msg))
+    rep.cov["sync_callback_log"] = {"conversations": len(cases), "table_dumps_compared_with_callback_replay": n_dump}
+    rep.cov["evaluations"] = rep.cov.get("evaluations", 0) + n_dump
+    return found
+
+
 def outcome_key(rep, c):
     """what must not depend on the segmentation: return value, socket, tables, bytes sent"""
     idx = [i for i, o in enumerate(c.ops) if o == "show"]
@@ -320,6 +363,8 @@ def run(pid, tier):
         else:
             fs, tr = sync_oracle(c, irep)
         for f in fs:
+            fails.append((c, f))
+        for f in cblog_fails(flat_i):
             fails.append((c, f))
         if tr is not None:
             stats["ret"][str(tr.ret)] = stats["ret"].get(str(tr.ret), 0) + 1
